@@ -142,6 +142,15 @@ def B4_reward_fold(ctx):
         a = p.events[ap[0]]
         if not (mentions(a.d['args'][1], p.events[rd[0]].d['result']) and has_call(a.d['args'][0], 'SpeculativeResult::into_commit_parts')):
             bad.append((p, 'apply_to is not (deferred reward).apply_to(committed beneficiary info)'))
+        # the committed info reaches apply_to as read: only the balance may change (nonce, code hash AND the code itself are kept —
+        # in-block code such as an EIP-7702 designator lives only in the cached account)
+        extra = sorted({short(c[1]) for c in calls_in(a.d['args'][1]) if not c[1].endswith('::basic_ref') and not is_transparent(c[1])})
+        if extra:
+            bad.append((p, f'the committed beneficiary info is transformed on its way into apply_to ({extra[0]})'))
+        between = [x for x in p.events[ap[0] + 1:ins[0]] if x.kind == 'call' and mentions(x.d['args'][0] if x.d['args'] else ('const', ''), a.d['result'])
+                   and not callee_matches(x.d['callee'], ('Account::mark_touch', '::from', '::into', '::insert')) and not is_transparent(x.d['callee'])]
+        if between:
+            bad.append((p, f'the credited account is transformed before it is inserted ({short(between[0].d["callee"])})'))
         i_e = p.events[ins[0]]
         if not (mentions(i_e.d['args'][2], a.d['result']) and has_call(i_e.d['args'][0], 'SpeculativeResult::into_commit_parts')):
             bad.append((p, 'inserted account is not built from apply_to\'s result into the tx state'))
